@@ -351,7 +351,7 @@ func init() {
 					return 2
 				}
 				return 3
-			}, MaxExec: schedCap(6000)}
+			}, MaxExec: schedCapT(6000, 40000)}
 		},
 		"one execution of the real engine with its own sweepers on virtual time per (unit, T, enqueue phase within the server second, interference pattern); T covers every second value 0..40 (the whole re-check ladder and the hand-over to the long-wait table) plus boundary values; oracle on virtual timestamps: T <= t_reply - t_enqueue <= T+2s, never after a grant, never granted after TIMEOUT, nothing left queued; plus schedule DFS of unlock / cancel racing the sweeper on the deadline tick; non-trivial = the run produced at least two replies",
 		[]string{"exhaustive over the classes the code distinguishes, not over all 65536 values of T", "virtual time: computation takes zero time, so the bounds are exact statements about server ticks", "sub-3s millisecond waits: lower bound and eventual firing only, as the property states"})
@@ -374,7 +374,7 @@ func init() {
 					return 2
 				}
 				return 3
-			}, MaxExec: schedCap(6000)}
+			}, MaxExec: schedCapT(6000, 40000)}
 		},
 		"one execution of the real engine with its own sweepers on virtual time per (unit, E, grant phase, interference pattern: none, queued request served at expiry, unlock before the deadline, re-entrant re-lock, update lengthening / shortening / by one unit, unlimited flag, 200 holds on one deadline with half of them unlocked); oracle on virtual timestamps: E <= t_EXPRIED - t_grant_or_last_term_change <= E+2s (10 s after a shortening update), exactly one EXPRIED under the RequestId that last set the terms, queued request granted when the hold ends; plus schedule DFS of unlock racing the expiry sweeper on the deadline tick; non-trivial = the run produced at least two replies",
 		[]string{"exhaustive over the classes the code distinguishes, not over all 65536 values of E", "virtual time: computation takes zero time", "an update moving the deadline by at most one unit may be ignored (both outcomes accepted)"})
